@@ -36,6 +36,7 @@ def run(tier):
     cc.model_check(rep, 'MC_Inject_quick')
     cc.model_check(rep, 'MC_Inject_thorough', timeout=3400)
     cc.replay_behaviours(rep, 'GinCore_Sim_inject', num=4000, nontrivial=_nontrivial, generate=16000)
+  cc.trace_validate(rep, 50 if tier == 'quick' else 600, seed_off=101)
   return rep.finish()
 
 
